@@ -92,7 +92,7 @@ def step (d : DS) (line : String) : DS × String :=
             ++ " onerr=" ++ showL (sortDedup (l.onerr.map fun (c, e) => s!"{natStr c}:{showOE e}"))
             ++ " prov=" ++ showL (sortDedup (l.prov.map natStr)) ++ " err=nil")
     | _, _, _, _ => (d, "bad-op")
-  | ["fetch", root, lim, conc, hs] =>
+  | "fetch" :: root :: lim :: conc :: hs :: _ =>   -- an optional 6th field (slow blocks) does not concern the model
     match root.toNat?, lim.toInt?, conc.toInt?, parseHs hs with
     | some root, some lim, some conc, some hs =>
       let g := mkGraph d
